@@ -12,7 +12,11 @@ pub const BUILTIN_IMPORTS: &[&str] = &[
     "android.os.ParcelableHolder",
 ];
 const PRIMS: &[&str] = &["int", "long", "boolean", "byte", "char", "float", "double", "short"];
-const ANNOTS: &[&str] = &["@nullable", "@utf8InCpp", "@VintfStability", "@Backing", "@JavaDerive"];
+const ANNOTS: &[&str] = &[
+    "@nullable", "@utf8InCpp", "@VintfStability", "@Backing", "@JavaDerive", "@RustDerive", "@Descriptor",
+    "@SuppressWarnings", "@JavaSuppressLint", "@Enforce", "@JavaPassthrough", "@Hide", "@MyOwn",
+];
+const ANNOT_KEYS: &[&str] = &["type", "toString", "value", "equals", "size", "signed", "min", "Clone", "x", "y"];
 
 #[derive(Clone, Debug, PartialEq)]
 pub enum Ty {
@@ -652,9 +656,12 @@ fn gen_annots(rng: &mut Rng, k: &GenKnobs) -> Vec<Annot> {
     while rng.pct(k.p_annot) && v.len() < 2 {
         let name = rng.pick(ANNOTS).to_string();
         let mut params = Vec::new();
-        let np = rng.below(3);
+        // 0..2 parameters mostly, sometimes up to 5; keys distinct, sometimes one repeated
+        let np = if rng.pct(25) { rng.range(2, 5) } else { rng.below(3) };
+        let mut keys: Vec<&str> = ANNOT_KEYS.to_vec();
+        rng.shuffle(&mut keys);
         for i in 0..np {
-            let key = ["type", "toString", "value"][i].to_string();
+            let key = if i > 0 && rng.pct(5) { keys[0].to_string() } else { keys[i].to_string() };
             let val = match rng.below(4) {
                 0 => None,
                 1 => Some("true".to_owned()),
